@@ -203,4 +203,52 @@ def run(ctx, prog, res):
 
     # W --------------------------------------------------------------------------------------
     witness.run_positive(ctx, prog, res, "C19.W1", "compile-time witness (rustc const evaluation, labelled): for all u8 x u8, ExtendedTime::new(h, m).is_some() == (m < 60 && 60h+m <= 2880)", group="c19")
+    # R7 -------------------------------------------------------------------------------------
+    r7 = res.rule("C19.R7", "values: minutes since midnight and back are inverse (60*h + m), add_minutes / add_hours equal integer addition and answer none exactly when the result leaves 00:00..=48:00. The five functions are extracted per path from MIR (peval) and evaluated on every valid time (2881; quick tier: the 246 with minute in {0, 1, 30, 58, 59}) with 15 offsets each around 0, +-1 h, +-24 h, +-48 h and the extremes of the argument type, and from_mins_from_midnight on 0..=3000 and 65535")
+    import peval
+    ETP = "opening_hours_syntax::extended_time::ExtendedTime::"
+    fns = {n: prog.fns.get(ETP + n) for n in ("new", "mins_from_midnight", "from_mins_from_midnight", "add_minutes", "add_hours")}
+    if None in fns.values():
+        r7.anchor_missing("ExtendedTime::{new, mins_from_midnight, from_mins_from_midnight, add_minutes, add_hours}")
+    else:
+        mk = lambda h, m: ("enum", "ExtendedTime", {"hour": h, "minute": m})
+        ev = peval.Evaluator(prog, consts={"MIDNIGHT_00": mk(0, 0), "MIDNIGHT_24": mk(24, 0), "MIDNIGHT_48": mk(48, 0)})
+        un = lambda v: None if v is None else (v[1][2]["hour"], v[1][2]["minute"])
+        thorough = ctx.tier == "thorough"
+        times = [(h, m) for h in range(49) for m in (range(60) if thorough else (0, 1, 30, 58, 59)) if 60 * h + m <= 2880]
+        KM = [-32768, -2881, -2880, -1441, -1440, -61, -60, -1, 0, 1, 59, 60, 1440, 2880, 32767]
+        KH = [-128, -49, -48, -25, -24, -1, 0, 1, 23, 24, 25, 47, 48, 49, 127]
+        bad = {}
+        n_ev = 0
+        try:
+            for h, m in times:
+                t = mk(h, m)
+                tot = ev.run(fns["mins_from_midnight"], [t]); n_ev += 1
+                if tot != 60 * h + m:
+                    bad.setdefault("mins_from_midnight", "%02d:%02d -> %r (expected %d)" % (h, m, tot, 60 * h + m))
+                for k in KM:
+                    got = un(ev.run(fns["add_minutes"], [t, k])); n_ev += 1
+                    w = 60 * h + m + k
+                    want = (w // 60, w % 60) if 0 <= w <= 2880 else None
+                    if got != want:
+                        bad.setdefault("add_minutes", "%02d:%02d %+d min -> %r (expected %r)" % (h, m, k, got, want))
+                for k in KH:
+                    got = un(ev.run(fns["add_hours"], [t, k])); n_ev += 1
+                    w = 60 * (h + k) + m
+                    want = (h + k, m) if 0 <= w <= 2880 else None
+                    if got != want:
+                        bad.setdefault("add_hours", "%02d:%02d %+d h -> %r (expected %r)" % (h, m, k, got, want))
+            for n in list(range(0, 3001)) + [65535]:
+                got = un(ev.run(fns["from_mins_from_midnight"], [n])); n_ev += 1
+                want = (n // 60, n % 60) if n <= 2880 else None
+                if got != want:
+                    bad.setdefault("from_mins_from_midnight", "%d -> %r (expected %r)" % (n, got, want))
+        except peval.Unmodelled as ex:
+            r7.fail("C19.R7:unmodelled", "ExtendedTime's arithmetic cannot be evaluated from its MIR any more (%s): not decided, failing closed" % ex, lib.where_of(fns["add_minutes"]))
+            bad = None
+        if bad is not None:
+            for nm in ("mins_from_midnight", "from_mins_from_midnight", "add_minutes", "add_hours"):
+                r7.check(nm not in bad, {"fn": nm, "times": len(times), "evaluations": n_ev}, "C19.R7:%s" % nm, "ExtendedTime::%s: %s" % (nm, bad.get(nm, "")), lib.where_of(fns[nm]))
+    r7.floor(4)
+
     witness.run_doctests(ctx, prog, res, "C19.W2", "the struct literal and the fields are not accessible outside the crate; twins compile", "c19", floor=2)
